@@ -450,6 +450,25 @@ func (s *sim) checkSiblingContexts(box *stateBox, where string) {
 	if !look("A", a, ea, kx, ky) || !look("B", b, eb, kx, ky) {
 		return
 	}
+	// a third sibling receives the very deposit branch A had: what A did to the context it was cloned from
+	// must not show: the same operation on a copy of the same state gives the same state
+	if c, err := box.st.CopyState(); err == nil {
+		ec := box.epc.Clone()
+		var cerr error
+		if p := guard(func() { cerr = phase0.ProcessDeposit(spec, ec, c, mk(kx), true) }); p != nil {
+			s.viol("C15", "panic/sibling-same-deposit/"+p.frame, p.val)
+			return
+		}
+		s.res.Stat("sibling_same_deposit_checks", 1)
+		if cerr != nil {
+			s.viol("C15", "copy-independence/sibling-same-deposit", fmt.Sprintf("%s (%s): two copies of one state, each with a clone of its context, receive the same deposit of a new validator: the first accepts it, the second fails: %v", where, forkName(box.st), cerr))
+			return
+		}
+		if ra, rc := a.HashTreeRoot(tree.GetHashFn()), c.HashTreeRoot(tree.GetHashFn()); ra != rc {
+			s.viol("C15", "copy-independence/sibling-same-deposit", fmt.Sprintf("%s (%s): two copies of one state, each with a clone of its context, receive the same deposit of a new validator and end in different states (%s, %s)", where, forkName(box.st), ra, rc))
+			return
+		}
+	}
 	// branch B now also receives the deposit branch A had at that index: a NEW validator there
 	b2, err := b.CopyState()
 	if err != nil {
